@@ -268,6 +268,19 @@ func (r *committedReader) readLoop(
 	var readSize int
 LOOP:
 	for {
+		if r.seg != r.hwSeg && r.hwSeg != nil && r.seg.BaseOffset == r.hwSeg.BaseOffset {
+			// The HW segment was replaced by a truncation or compaction since
+			// we located the HW in it, so we need to locate it again.
+			// Otherwise we would not recognize the HW segment and read past
+			// the HW.
+			hwIdx, hwPos, hwErr := getHWPos(segments, r.hw)
+			if hwErr != nil {
+				err = hwErr
+				break
+			}
+			r.hwSeg = segments[hwIdx]
+			r.hwPos = hwPos
+		}
 		lim := int64(len(p[n:]))
 		if r.seg == r.hwSeg {
 			// If we're reading from the HW segment, read up to the HW pos.
